@@ -6,6 +6,19 @@ from .arith import rng_of, _tag
 AXFN = ['sum', 'cumsum', 'prod', 'cumprod', 'max', 'min', 'sort']
 
 
+def prod_word(t, k, fn):
+    """word length of the optimal result of prod / cumprod over k elements (C15's stated domain: result word <= 53 bits).
+    prod: k words.  cumprod: every partial product has to fit - k words, plus the room the FIRST partial products need when the
+    integer length or the fraction length of the operand is negative (rule CumProdFmt of MC_Reduce)."""
+    s, w, f = t
+    if fn == 'prod':
+        return k * w
+    sg = 1 if s else 0
+    F = k * f if f >= 0 else f
+    NI = max(k * w - sg - k * f, w - sg - f)
+    return sg + NI + F
+
+
 def _all_calls(fx, np, pid, t, codes, shape, rng, t2=None, full=True):
     out = []
     axes = [None] + (list(range(len(shape))) if len(shape) == 2 else [0])
@@ -15,7 +28,7 @@ def _all_calls(fx, np, pid, t, codes, shape, rng, t2=None, full=True):
             for ax in axes:
                 if fn in ('prod', 'cumprod'):
                     k = len(codes) if (ax is None or len(shape) == 1 or fn == 'cumprod') else shape[ax]     # (cumprod sizes its result for ALL elements whatever the axis: the stated domain is a result word <= 53 bits)
-                    if k * t[1] > 53:
+                    if prod_word(t, k, fn) > 53:
                         continue
                 if not full and rng.random() < 0.5:
                     continue
@@ -66,7 +79,7 @@ def _small(args):
     # every element at an extreme: all of {Lo,Hi}^n for the 1-D array
     for v in itertools.product([lo, hi], repeat=n):
         for fn in AXFN:
-            if fn in ('prod', 'cumprod') and n * t[1] > 53:
+            if fn in ('prod', 'cumprod') and prod_word(t, n, fn) > 53:
                 continue
             for route in ('np', 'method'):
                 out.append(x_reduce.observe_reduce(fx, np, [pid], fn, route, t, list(v), (n,), axis=None if (len(out) % 2) else 0))
@@ -92,7 +105,8 @@ def _wide(args):
     for _ in range(count):
         s = rng.random() < 0.5
         w = rng.randint(2, 12)
-        t = (s, w, rng.randint(0, w))
+        # (a quarter of the formats have a negative or an oversized fraction length: negative n_frac / negative n_int)
+        t = (s, w, rng.randint(0, w) if rng.random() < 0.75 else rng.choice([-2, -1, w + 1, w + 2, w + 3]))
         lo, hi = rng_of(t)
         shape = rng.choice([(rng.randint(1, 8),), (2, 2), (2, 3), (3, 2), (3, 3), (1, 3), (3, 1), (2, 4)])
         size = shape[0] * (shape[1] if len(shape) == 2 else 1)
